@@ -14,7 +14,7 @@ C = {
  "C02": ("exploration", "model-based stateful PBT (rapid) against a Go-map reference model, compared after every operation",
          "Same as C01 for ordered maps: set/get/has/remove/pop/type change/bulk ops, absent-key variants (KeyNotFoundError, user category), keys and values of every size class incl. externalised keys and nested containers, compared with a dictionary keyed by canonical key text."),
  "C03": ("exploration", "stateful PBT with a recording ledger: write-log silence between commits, fresh-storage reload at every commit and crash point",
-         "Histories over 1-3 roots (two owners plus a temporary-address container) with generated commit / crash markers: after every step the ledger's write log must not have grown since the last commit; at each commit a brand-new storage over the registers must reproduce the model; at crash points a new storage over a copy of the ledger must equal the model snapshot of the last commit; no zero-address register may ever be written."),
+         "Histories over 1-3 roots (two owners plus a temporary-address container) with generated commit / crash markers: after every step the ledger's write log must not have grown since the last commit; at each commit a brand-new storage over the registers must reproduce the model and the register set must equal the slabs reachable from the live roots (handed-back containers are kept and later disposed of, some by identifier without loading); at crash points a new storage over a copy of the ledger must equal the model snapshot of the last commit; no zero-address register may ever be written."),
  "C04": ("exploration", "metamorphic PBT: same history under 1/N/64 workers, repeated, order-relaxed commit, and a second OS process (other toolchain in thorough); byte-identical registers and ordered write log",
          "Each generated multi-owner history is run five times in-process (worker counts, repetition for pool/map-order effects, order-relaxed commit) and its register digest is compared with a second OS process (GOMAXPROCS=1; go1.26.8 build in the thorough tier) that regenerates the same case; the deterministic commit's write log must be strictly ascending in (owner, index) and identical across runs, the relaxed commit must write the same set."),
  "C05": ("exploration", "stateful PBT with an independent structural oracle over raw register bytes plus the in-repo verifiers",
@@ -34,13 +34,13 @@ C = {
  "C12": ("exploration", "model-based stateful PBT with generated adversarial digesters (1-4 levels, tiny alphabets) and collision limits 0..255",
          "Root maps use generated digest functions colliding on any subset of levels; set/update/remove histories must keep dictionary semantics, canonical iteration order, valid structure (incl. inline and external collision groups and their collapse); an insert is expected to be refused with a fatal CollisionLimitError exactly when the number of entries with distinct second-level digests under its first-level digest exceeds the limit, leaving content and pending-slab count unchanged; updates are always accepted."),
  "C13": ("exploration", "differential PBT over all iterator flavours against the model's canonical order, with in-flight mutation and generated partial loading",
-         "On intermediate and final states of generated histories every enumeration API (read-only, mutable, ranges incl. invalid bounds, keys/values, loaded-values, explicit Next/NextKey/NextValue, PopIterate order) must yield the model's elements once in canonical order (digests recomputed by the harness); the final state is iterated while current elements are overwritten and nested children mutated, and opened in a new storage with a generated subset of slabs loaded, where the loaded-value iterator must yield exactly the elements whose slabs are loaded."),
+         "On intermediate and final states of generated histories every enumeration API (read-only, mutable, ranges incl. invalid bounds, keys/values, loaded-values, all explicit iterator objects incl. range and loaded-value iterators, the mutation-callback variants, PopIterate order) must yield the model's elements once in canonical order (digests recomputed by the harness); the final state is iterated while current elements are overwritten and nested children mutated, and opened in a new storage with a generated subset of slabs loaded, where the loaded-value iterator must yield exactly the elements whose slabs are loaded; on a scratch storage a container obtained from any read-only flavour must refuse mutation with a fatal ReadOnlyIteratorElementMutationError and report it to the mutation callback."),
  "C14": ("fault_enumeration", "fault enumeration inside generated histories: every single failing ledger write position, pairs/triples, retry to convergence",
          "For each generated history a fault-free run fixes the reference registers; then every single ledger write/delete position (stratified above a cap) and pairs (exhaustive for <=12 writes) / triples are failed: the commit must return an external error, keep pending changes, reads must still equal the model, and retrying must end byte-identical to the reference, for both commit flavours and several worker counts."),
  "C15": ("exploration", "state-machine PBT of PersistentSlabStorage against a three-map overlay model, plus bounded-exhaustive enumeration of short op sequences",
          "Store/remove/retrieve/retrieve-if-loaded/cache-bypassing retrieve/both commits (with injected ledger failures)/drop deltas/drop cache/batch preload (below and above the parallel threshold)/re-creation over 4 identifiers (two owners + temporary) and 3 slab versions; after every step all observers and the ledger are compared with the model; all sequences up to length 4 (5 in thorough) over an 18-op alphabet are enumerated exhaustively in addition to random sequences up to 60 (150) ops."),
  "C16": ("exploration", "concurrency PBT under the Go race detector: concurrent histories vs. sequential twins, N-worker commit/preload vs. 1 worker",
-         "Up to 16 goroutines each run a generated history on their own storage (default digester pool, encoder buffer pools, parallel commits inside) with scheduling jitter and varied GOMAXPROCS; each must end with the same register digest and results as when run alone; a >=10-slab write set is committed and preloaded with 2..64 workers (also with injected ledger and encoder failures) and compared with 1 worker; any race report is a violation. The scheduler is not controlled: interleavings are sampled."),
+         "Up to 16 goroutines each run a generated history on their own storage (default digester pool, encoder buffer pools, parallel commits inside) with scheduling jitter and varied GOMAXPROCS; each must end with the same register digest and results as when run alone; a >=10-slab write set is committed and preloaded with 2..64 workers (also with injected ledger and encoder failures, after which the deterministic commit must leave the same registers and error class as with 1 worker) and compared with 1 worker; any race report or crash of a worker goroutine is a violation. The scheduler is not controlled: interleavings are sampled."),
  "C17": ("exploration", "PBT over element streams and sources with the engine as validity oracle",
          "NewArrayFromBatchData over generated size programs (constant, alternating tiny/maximal, ramps, huge tail, exact-fill with underfull last leaf/index), NewMapFromBatchData from generated source maps (valid, unsorted, duplicate streams), byte slice<->array conversion around the single-slab threshold, and CanCopy/CopyNonRefSimple on every container of generated trees; results must equal their source, pass every structural oracle, keep working under further operations, and stay intact when the source is mutated or disposed of."),
  "C18": ("exploration", "metamorphic PBT (history with vs. without rejected requests) plus exhaustive failure injection into caller-supplied components during lookups",
@@ -84,7 +84,7 @@ m = {
         {"name": "decoder fuzz target", "path": "harness/c19.go", "serves_properties": ["C19"], "kind_free_text": "structured mutation (rapid) and native go fuzzing of DecodeSlab and header predicates"},
     ],
     "checks": checks,
-    "notes": "All checks rebuild the harness against /repo's working tree with -tags verif. VERIF_SEED selects the rapid seeds (never 0). Exit 2 = inconclusive (build failure, timeout, degenerate generator), never reported as a violation. known_findings.json lists repaired defects (status fixed) and would list open ones.",
+    "notes": "All checks rebuild the harness against /repo's working tree with -tags verif. VERIF_SEED selects the rapid seeds (never 0). Exit 2 = inconclusive (build failure, timeout, degenerate generator), never reported as a violation; a panic on a goroutine executing library code that kills the test process is a violation (the running case is the replay). A quarter of the engine cases reach their registers through atree.LedgerBaseStorage. known_findings.json lists repaired defects (status fixed) and would list open ones.",
     "not_applicable": [],
 }
 json.dump(m, open("/verif/MANIFEST.json", "w"), indent=1)
